@@ -26,6 +26,7 @@ type Profile struct {
 	RawStore                                                              int  // percent of histories on the raw MemoryStore (monitors only)
 	JWT                                                                   int  // percent of histories with JWT access tokens (monitors only)
 	ClientLife                                                            int  // percent of clients with a table of lifetime overrides
+	Contract                                                              int  // percent of histories on the contract-following device store (monitors only)
 	Smuggle                                                               int
 }
 
@@ -118,6 +119,9 @@ func newGen(r *RNG, p *Profile) *gen {
 	c.ParEnforced = r.Chance(p.ParEnforce)
 	c.RawStore = r.Chance(p.RawStore)
 	c.JWTAccess = r.Chance(p.JWT)
+	if !c.JWTAccess && !c.RawStore {
+		c.ContractStore = r.Chance(p.Contract)
+	}
 	n := 2 + r.Intn(3)
 	for i := 0; i < n; i++ {
 		cl := HClient{Public: r.Chance(30)}
